@@ -211,7 +211,7 @@ def observables(env, eng, backend, n):
     return o
 
 
-def observables_of(st, backend, n):
+def observables_of(st, backend, n, deferred=False):
     o = {}
     o["means"] = np.asarray(st.means()) if backend == "gaussian" else None
     o["cov"] = np.asarray(st.cov()) if backend == "gaussian" else None
@@ -250,6 +250,9 @@ def observables_of(st, backend, n):
         A = np.array([[0.3 if i == j else 0.1 / (1 + abs(i - j)) for j in range(2 * n)] for i in range(2 * n)])
         dvec = np.array([0.2 - 0.05 * i for i in range(2 * n)])
         try:
+            if backend == "fock" and (n >= 3 or (n == 2 and deferred)):
+                # (dense operator products of dimension cutoff^n: 1-2 s per call at two modes, far more at three)
+                raise NotImplementedError
             o["poly_quad_A"] = np.asarray(st.poly_quad_expectation(A), dtype=complex) / np.array([h, h * h])
             # (no constant term: on a truncated Fock state it contributes k * trace, a truncation effect and not a scaling one)
             o["poly_quad_d"] = np.asarray(st.poly_quad_expectation(np.zeros((2 * n, 2 * n)), dvec, 0.0), dtype=complex)
@@ -298,9 +301,9 @@ def run_case(case, rep, env):
                 st = o.pop("_state")
                 sf.hbar = h_now
                 rep.monitor("deferred-query:" + backend)
-                again = observables_of(st, backend, spec["n"])
+                again = observables_of(st, backend, spec["n"], deferred=True)
                 for key, val in o.items():
-                    if val is None or key.endswith("_after"):
+                    if val is None or key.endswith("_after") or key not in again:
                         continue
                     a, b = np.asarray(val, dtype=complex), np.asarray(again[key], dtype=complex)
                     d = float(np.max(np.abs(a - b))) if a.size else 0.0
